@@ -195,11 +195,12 @@ Proof. repeat split. Qed.
 (* [LitStd O]: the order of the literal bounds glam passes to std `clamp` (-1 <= 1 and 0 <= 1) holds in [O]; true of IEEE *)
 Definition LitStd (O:Ops) : Prop :=
   f32_cmp O FLe (f32_of_bits O 3212836864) (f32_of_bits O 1065353216) = true /\ f64_cmp O FLe (f64_of_bits O 13830554455654793216) (f64_of_bits O 4607182418800017408) = true /\
-  f32_cmp O FLe (f32_of_bits O 0) (f32_of_bits O 1065353216) = true /\ f64_cmp O FLe (f64_of_bits O 0) (f64_of_bits O 4607182418800017408) = true.
+  f32_cmp O FLe (f32_of_bits O 0) (f32_of_bits O 1065353216) = true /\ f64_cmp O FLe (f64_of_bits O 0) (f64_of_bits O 4607182418800017408) = true /\
+  f32_pred O FSignBit (f32_of_bits O 4294967295) = true /\ f32_pred O FSignBit (f32_of_bits O 0) = false.
 Lemma LitStd_IEEE chk o1 o2 : LitStd (IEEE chk o1 o2).
 Proof. repeat split; vm_compute; reflexivity. Qed.
-Ltac litstd_eqs H := cbv [LitStd f32_cmp f64_cmp f32_of_bits f64_of_bits] in H; destruct H as (? & ? & ? & ?).
-Ltac use_lits := repeat match goal with E : _ = true |- _ => rewrite E end.
+Ltac litstd_eqs H := cbv [LitStd f32_cmp f64_cmp f32_of_bits f64_of_bits f32_pred] in H; destruct H as (? & ? & ? & ? & ? & ?).
+Ltac use_lits := repeat match goal with E : _ = true |- _ => rewrite E | E : _ = false |- _ => rewrite E end.
 
 (* split the hypothesis into its eleven equations (the abstract primitives stay variables until [unlock_ints]) *)
 Ltac intstd_eqs H :=
